@@ -14,7 +14,7 @@ import (
 func searchRoots(p *Prog) []*ssa.Function {
 	var out []*ssa.Function
 	for _, f := range apiRoots(p) {
-		if f.Parent() != nil {
+		if p.GoRoot[f] && (f.Parent() != nil || p.GoOnly[f]) {
 			continue
 		}
 		n := named(recvType(f))
